@@ -428,12 +428,14 @@ def install(interp):
 
     reg("where", where)
 
-    def linspace(ctx, a, b, num=50):
+    def linspace(ctx, a, b, num=50, endpoint=True):
         if not isinstance(num, int):
             raise Unsupported("np.linspace with symbolic num")
+        if num == 0:
+            return Arr(0, elems=[], dtype="float")
         if num == 1:
             return Arr(1, elems=[ops.to_float(a)], dtype="float")
-        step = ops.scalar_binop("/", ops.scalar_binop("-", b, a), num - 1)
+        step = ops.scalar_binop("/", ops.scalar_binop("-", b, a), (num - 1) if endpoint else num)
         return Arr(num, elems=[ops.to_float(ops.scalar_binop("+", a, ops.scalar_binop("*", k, step))) for k in range(num)], dtype="float")
 
     reg("linspace", linspace)
